@@ -36,8 +36,10 @@ DOMAINS = {
         ("Inspector_sigdoc_quick.cfg", True),
         ("Inspector_deffull_quick.cfg", False),
         ("Inspector_cprop_quick.cfg", True),
+        ("Inspector_relimp_quick.cfg", False),
     ],
     "thorough": [
+        ("Inspector_relimp_thorough.cfg", False, 16000),     # idem
         ("Inspector_clean_thorough.cfg", True, 16000),      # model-checked exhaustively, seeded sample replayed
         ("Inspector_clean2_thorough.cfg", True),
         ("Inspector_full_thorough.cfg", False),
@@ -50,15 +52,19 @@ DOMAINS = {
 }
 # one TLC run per recorded root cause (Inspector_defect.cfg): the invariant TLC must refute + the small domain holding the trigger
 _D = {"MAININS": '{"init"}', "MAXSTMTS": 2, "STMTS": '{"def"}', "DECOS": '{"none"}', "SIGS": '{"s0"}', "DOCS": '{"none"}', "VALS": '{"lit"}',
-      "IMPORTS": '{"OK"}', "ASNAMES": '{"-"}'}
+      "IMPORTS": '{"OK"}', "ASNAMES": '{"-"}', "LEVELS": "{1}"}
 DEFECTS = {
     "annonly": ("NoAnnOnly", dict(_D, STMTS='{"def", "annonly"}')),
     "import-self": ("NoImportSelf", dict(_D, MAININS='{"init", "sub"}', STMTS='{"import", "from"}')),
     "base-rebound": ("NoBaseRebound", dict(_D, MAXSTMTS=3, STMTS='{"class", "assign", "from"}', ASNAMES='{"-", "a"}')),
+    "from-package-attribute": ("NoFromPackageAttribute", dict(_D, MAININS='{"mid", "deep"}', STMTS='{"from"}', IMPORTS='{"OK", "other"}',
+                                                              ASNAMES='{"-", "a"}', LEVELS="{1, 2}")),
     "ref": ("NoRef", dict(_D, STMTS='{"def", "assign", "ref"}')),
 }
 BATCH = 200
 TLC_WORKERS = {"quick": 3, "thorough": 4}
+# many short TLC runs start at once: keep each JVM small (C1 compiler only, two GC threads) so that they do not starve each other
+JVM_ENV = {"JAVA_TOOL_OPTIONS": "-XX:TieredStopAtLevel=1 -XX:ParallelGCThreads=2"}
 LABEL_VOCAB = {"staticmethod", "classmethod", "property", "cached", "async"}
 
 
@@ -433,9 +439,9 @@ def main(tier: str, replay: str | None = None):
             futs = {}
             for cfg, clean, *cap in DOMAINS[tier]:
                 caps[cfg] = cap[0] if cap else None
-                futs[pool.submit(tlc.run, "Inspector", cfg, workers=TLC_WORKERS[tier], timeout=3000, heap="2g" if tier == "quick" else "6g")] = ("domain", cfg, clean)
+                futs[pool.submit(tlc.run, "Inspector", cfg, workers=TLC_WORKERS[tier], timeout=3000, heap="2g" if tier == "quick" else "6g", env=JVM_ENV if tier == "quick" else None)] = ("domain", cfg, clean)
             for cause, (inv, consts) in DEFECTS.items():
-                futs[pool.submit(tlc.run, "Inspector", "Inspector_defect.cfg", workers=1, timeout=600, constants=dict(consts, INV=inv), dump_trace=True, heap="512m")] = ("defect", cause, inv)
+                futs[pool.submit(tlc.run, "Inspector", "Inspector_defect.cfg", workers=1, timeout=600, constants=dict(consts, INV=inv), dump_trace=True, heap="512m", env=JVM_ENV)] = ("defect", cause, inv)
             first = True
             for fut in as_completed(futs):
                 kind, a, b = futs[fut]
@@ -516,7 +522,7 @@ def _tlc_single_program(case: dict):
     """TLC on a module that extends Inspector and forces the stored token sequence (ForcedProg <- ReplayProg)."""
     import shutil
 
-    toks = ",\n  ".join("[" + ", ".join(f"{f} |-> {_tla_value(k[f])}" for f in ("t", "n", "deco", "async", "sig", "doc", "val", "what", "as", "base", "inst")) + "]" for k in case["prog"])
+    toks = ",\n  ".join("[" + ", ".join(f"{f} |-> {_tla_value(k.get(f, 0))}" for f in ("t", "n", "deco", "async", "sig", "doc", "val", "what", "as", "base", "inst", "lvl")) + "]" for k in case["prog"])
     with scratch("c17r-") as d:
         shutil.copy(os.path.join(tlc.SPEC_DIR, "Inspector.tla"), d)
         with open(os.path.join(d, "InspectorReplay.tla"), "w") as fh:
@@ -554,5 +560,6 @@ def _replay_constants(case: dict) -> dict:
         "VALS": s([k["val"] for k in prog if k["t"] in ("assign", "ann")] or ["lit"]),
         "IMPORTS": s([k["what"] for k in prog if k["t"] == "from"] or ["OK"]),
         "ASNAMES": s([k["as"] for k in prog if k["t"] in ("from", "import")] or ["-"]),
+        "LEVELS": "{" + ", ".join(str(x) for x in sorted({max(k.get("lvl", 1), 1) for k in prog if k["t"] == "from"} or {1})) + "}",
         "ALLOWINST": "TRUE" if any(k["inst"] for k in prog) or any(k["n"] == "__init__" for k in prog) else "FALSE",
     }
